@@ -66,9 +66,6 @@ std::size_t TotalHeaderSize(unsigned char order) {
 }
 
 void WriteHeader(void *to, const Parameters &params) {
-  Sanity header = Sanity();
-  header.SetToReference();
-  std::memcpy(to, &header, sizeof(Sanity));
   char *out = reinterpret_cast<char*>(to) + sizeof(Sanity);
 
   *reinterpret_cast<FixedWidthParameters*>(out) = params.fixed;
@@ -78,6 +75,12 @@ void WriteHeader(void *to, const Parameters &params) {
   for (std::size_t i = 0; i < params.counts.size(); ++i) {
     counts[i] = params.counts[i];
   }
+
+  // The sanity block goes last: when writing through a shared mapping, a file
+  // whose magic is complete must already have its parameters.
+  Sanity header = Sanity();
+  header.SetToReference();
+  std::memcpy(to, &header, sizeof(Sanity));
 }
 
 } // namespace
